@@ -2364,4 +2364,151 @@ theorem flatten_order_independent (t1 t2 : Tree) (h : MapEq t1 t2) (hw : wfTree 
 example : (flattenS exT1).1 = [.atom 1, .atom 2, .atom 3] ∧ (flattenS exT2).1 = [.atom 1, .atom 2, .atom 3] := by
   decide
 
+/-! ## fuel sufficiency: the walks never run out of fuel on acyclic structures
+
+`Depth h v n`: everything reachable from `v` exists and lies within `n` levels.  `deep` with fuel `n`
+succeeds on such a value, in any mode, with no invariant at all (`deep_total`).  Under the invariant
+every FrozenDict has depth at most `fuelOf h` (its dicts are built bottom-up), so with the fuel the
+driver and `step` use, no API call on a FrozenDict can return `Recursion` or `Dangling`
+(`frozen_api_total`).  User dicts can be made cyclic by the user (`d['a'] = d`); Python then raises
+RecursionError and the model `Recursion` — for them `Depth` is the hypothesis "acyclic". -/
+
+inductive Depth (h : Heap) : Val → Nat → Prop where
+  | leaf (l : Leaf) (n : Nat) : Depth h (.leaf l) n
+  | dict {a : Addr} {o : Bool} {kvs : List (Key × Val)} {n : Nat} :
+      h[a]? = some (Obj.dict o kvs) → (∀ p ∈ kvs, Depth h p.2 n) → Depth h (.ref a) (n + 1)
+  | frozen {a i : Addr} {n : Nat} :
+      h[a]? = some (Obj.frozen i) → Depth h (.ref i) n → Depth h (.ref a) (n + 1)
+
+private theorem Depth.mono_ext {h h' : Heap} (e : Ext h h') {v : Val} {n : Nat} (d : Depth h v n) : Depth h' v n := by
+  induction d with
+  | leaf l n => exact .leaf l n
+  | dict hg _ ih => exact .dict (e.get hg) ih
+  | frozen hg _ ih => exact .frozen (e.get hg) ih
+
+private theorem Depth.mono_fuel {h : Heap} {v : Val} {n : Nat} (d : Depth h v n) : ∀ {m : Nat}, n ≤ m → Depth h v m := by
+  induction d with
+  | leaf l n => intro m _; exact .leaf l m
+  | dict hg _ ih =>
+    intro m hm
+    cases m with
+    | zero => omega
+    | succ m => exact .dict hg (fun p hp => ih p hp (by omega))
+  | frozen hg _ ih =>
+    intro m hm
+    cases m with
+    | zero => omega
+    | succ m => exact .frozen hg (ih (by omega))
+
+private theorem deep_ref_result {m : Mode} {own : Bool} {n : Nat} {h : Heap} {a : Addr} {h' : Heap} {v' : Val}
+    (hd : deep m own n h (.ref a) = .ok (h', v')) : ∃ j, v' = .ref j := by
+  cases n with
+  | zero => simp [deep] at hd
+  | succ n =>
+    simp only [deep] at hd
+    split at hd
+    · cases hd
+    · split at hd
+      · cases hd
+      · simp at hd; exact ⟨_, hd.2.symm⟩
+    · cases m with
+      | prepare => simp at hd; exact ⟨_, hd.2.symm⟩
+      | unfreeze => exact deep_ref_result hd
+      | tree =>
+        simp only at hd
+        split at hd
+        · cases hd
+        · simp at hd; exact ⟨_, hd.2.symm⟩
+        · cases hd
+
+private theorem mapKvs_total (f : Heap → Val → Except Err (Heap × Val))
+    (f_ext : ∀ h v h' v', f h v = .ok (h', v') → Ext h h') :
+    ∀ (kvs : List (Key × Val)) (h : Heap),
+      (∀ h1, Ext h h1 → ∀ p ∈ kvs, ∃ r, f h1 p.2 = .ok r) → ∃ r, mapKvs f h kvs = .ok r := by
+  intro kvs
+  induction kvs with
+  | nil => intro h _; exact ⟨_, rfl⟩
+  | cons p rest ih =>
+    intro h hf
+    obtain ⟨k, v⟩ := p
+    obtain ⟨⟨h1, v1⟩, hv⟩ := hf h (Ext.refl _) (k, v) (by simp)
+    have e1 := f_ext _ _ _ _ hv
+    obtain ⟨⟨h2, rest'⟩, hr⟩ := ih h1 (fun h2 e2 p hp => hf h2 (e1.trans e2) p (by simp [hp]))
+    exact ⟨_, by simp [mapKvs, hv, hr]⟩
+
+/-- **Fuel sufficiency**: a walk with fuel `n` over a value of depth `n` never fails (no `Recursion`,
+no `Dangling`), in every mode. -/
+theorem deep_total : ∀ (n : Nat) (m : Mode) (own : Bool) (h : Heap) (v : Val),
+    Depth h v n → ∃ r, deep m own n h v = .ok r := by
+  intro n
+  induction n with
+  | zero =>
+    intro m own h v d
+    cases d with
+    | leaf l => exact ⟨_, by simp [deep]⟩
+  | succ n ih =>
+    intro m own h v d
+    cases d with
+    | leaf l => exact ⟨_, by simp [deep]⟩
+    | dict hg hk =>
+      rename_i a o kvs
+      obtain ⟨⟨h1, kvs'⟩, hm⟩ := mapKvs_total (deep m own n) (fun h v h' v' => deep_ext n m own h v h' v')
+        (if m = .tree then sortKvs kvs else kvs) h
+        (fun h1 e p hp => ih m own h1 p.2 (Depth.mono_ext e (hk p (mem_ord hp))))
+      exact ⟨_, by simp only [deep, hg, hm]⟩
+    | frozen hg di =>
+      rename_i a i
+      cases m with
+      | prepare => exact ⟨_, by simp [deep, hg]⟩
+      | unfreeze =>
+        obtain ⟨r, hr⟩ := ih .tree own h (.ref i) di
+        exact ⟨r, by simp only [deep, hg]; exact hr⟩
+      | tree =>
+        obtain ⟨⟨h1, v1⟩, hr⟩ := ih .tree true h (.ref i) di
+        obtain ⟨j, rfl⟩ := deep_ref_result hr
+        exact ⟨_, by simp only [deep, hg, hr]⟩
+
+private theorem depth_owned {h : Heap} (hi : HeapInv h) : ∀ (n : Nat) (a : Nat), a ≤ n →
+    isOwned h a → Depth h (.ref a) (a + 1) := by
+  intro n
+  induction n with
+  | zero =>
+    intro a ha ⟨kvs, hg⟩
+    have : a = 0 := by omega
+    subst this
+    refine .dict hg ?_
+    intro p hp
+    cases hv : p.2 with
+    | leaf l => exact .leaf l _
+    | ref b => exact absurd (hi.owned_down 0 kvs hg p hp b hv) (Nat.not_lt_zero _)
+  | succ n ih =>
+    intro a ha ⟨kvs, hg⟩
+    refine .dict hg ?_
+    intro p hp
+    cases hv : p.2 with
+    | leaf l => exact .leaf l _
+    | ref b =>
+      have hb : @LT.lt Nat _ b a := hi.owned_down a kvs hg p hp b hv
+      have hown := hi.owned_closed a kvs hg p hp
+      rw [hv] at hown
+      exact (ih b (by omega) hown).mono_fuel (by omega)
+
+private theorem lt_length_of_get {h : Heap} {a : Nat} {o : Obj} (hg : h[a]? = some o) : a < h.length := by
+  rcases Nat.lt_or_ge a h.length with h1 | h1
+  · exact h1
+  · rw [List.getElem?_eq_none h1] at hg; cases hg
+
+/-- under the invariant an owned value fits in the fuel `fuelOf h - 1`, a FrozenDict in `fuelOf h` -/
+private theorem depth_ownedVal {h : Heap} (hi : HeapInv h) {v : Val} (hv : OwnedVal h v) : Depth h v h.length := by
+  cases v with
+  | leaf l => exact .leaf l _
+  | ref a =>
+    obtain ⟨kvs, hg⟩ := hv
+    have := lt_length_of_get hg
+    exact (depth_owned hi a a (Nat.le_refl _) ⟨kvs, hg⟩).mono_fuel (by omega)
+
+theorem frozen_depth (w : World) (hs : Sep w) (f i : Addr) (hf : w.heap[f]? = some (Obj.frozen i)) :
+    Depth w.heap (.ref f) (fuelOf w.heap) :=
+  .frozen hf (depth_ownedVal hs.heap (v := .ref i) (hs.heap.frozen_inner f i hf))
+
 end Flax.C15
